@@ -110,7 +110,7 @@ def run_case(case):
                 path = path.rstrip(",") or "/x"
                 step = {"op": "push", "path": path, "size": case["size"], "seed": case["seed"], "src": rng.choice(["bytesio", "file"]),
                         "mode": rng.choice([0o100644, 0o100777, 0, 1, 0x7FFFFFFF, 0xFFFFFFFF, 0o100660]), "mtime": rng.choice([0, 0, 1, 1234567890, 0x7FFFFFFF, 0xFFFFFFFF]),
-                        "cb": rng.choice([None, None, "ok", "raise"])}
+                        "cb": rng.choice([None, None, "ok", "raise", "raisebase"])}
                 nstreams = len(sess.sim.all_streams)
                 out, v = r.do_push(0, step)
                 viol += v
@@ -250,7 +250,7 @@ def run_case(case):
         if case["kind"] == "cbdiff":
             logs = []
             content = scen.blob(case["seed"], case["size"])
-            for cbk in (None, "ok", "raise"):
+            for cbk in (None, "ok", "raise", "raisebase"):
                 d2 = dict(dims, noise=[])
                 sess = gen.make_session(case["impl"], d2, case["seed"])
                 r = scen.Runner(sess, {"dims": d2, "steps": []})
@@ -264,8 +264,8 @@ def run_case(case):
                 finally:
                     sess.dispose()
             stats["cbdiff_triples"] += 1
-            if logs[0] != logs[1] or logs[0] != logs[2]:
-                which = "a callback" if logs[0] != logs[1] else "a raising callback"
+            if any(lg != logs[0] for lg in logs[1:]):
+                which = "a callback" if logs[0] != logs[1] else ("a raising callback" if logs[0] != logs[2] else "a callback raising something that is not an Exception subclass")
                 viol.append(mk("C07", "callback-changes-packets", "the host packet log of a %d-byte push differs with %s (%d vs %d/%d packets)" % (case["size"], which, len(logs[0]), len(logs[1]), len(logs[2]))))
             return {"sig": "cbdiff|%s|%d|%d" % (case["impl"], case["size"], case["maxdata"]) if case["size"] else None, "violations": _dedupe(viol), "stats": stats,
                     "sample": {"case": case, "packets": len(logs[0])} if case["seed"].endswith(":c2") else None}
